@@ -144,8 +144,11 @@ Definition snap_socket : bytes := bs "/run/snapd-snap.socket".
 (* what polkit.CheckAuthorization returns: (true,nil) / (false,nil) / ErrDismissed / any other error *)
 Inductive polkit_answer : Type := PkYes | PkNo | PkDismissed | PkError.
 
-(* one entry of the persisted conns: plug snap of the reference, Interface, Undesired, HotplugGone *)
-Record conn : Type := mkConn { c_plug_snap : bytes; c_iface : bytes; c_undesired : bool; c_hotplug_gone : bool }.
+(* one entry of the persisted conns: plug snap and slot snap of the reference (instance names, compared exactly),
+   Interface, Undesired, HotplugGone. The code looks at the plug side only; the slot side is part of the context so
+   that the specification can say so and the driver can offer connections in which the caller is the slot side. *)
+Record conn : Type := mkConn { c_plug_snap : bytes; c_slot_snap : bytes; c_iface : bytes;
+                               c_undesired : bool; c_hotplug_gone : bool }.
 
 Record ctx : Type := mkCtx {
   x_remote : bytes;                          (* r.RemoteAddr as set by the listener (or forged) *)
@@ -430,18 +433,19 @@ Definition drv_snap := bs "some-snap".
 Definition drv_other := bs "other-snap".
 Definition if_refresh_control := bs "snap-refresh-control".
 Definition if_network := bs "network".
+Definition drv_core := bs "core".
 Definition drv_conns (k : nat) : list conn :=
   match k with
   | 0%nat => []
-  | 1%nat => [mkConn drv_snap if_refresh_observe false false; mkConn drv_snap if_themes false false;
-              mkConn drv_snap if_prompting false false]
-  | 2%nat => [mkConn drv_snap if_refresh_observe true false; mkConn drv_snap if_themes false true;
-              mkConn drv_other if_prompting false false; mkConn drv_other if_refresh_observe false false;
-              mkConn drv_snap if_network false false]
-  | 3%nat => [mkConn drv_snap if_refresh_observe false false; mkConn drv_snap if_refresh_observe true false]
-  | 4%nat => [mkConn drv_snap if_themes false false; mkConn drv_other if_refresh_observe false false]
-  | 5%nat => [mkConn drv_snap if_prompting false false; mkConn drv_snap if_refresh_control false false]
-  | _ => [mkConn drv_snap if_refresh_control false false; mkConn drv_snap if_network false false]
+  | 1%nat => [mkConn drv_snap drv_core if_refresh_observe false false; mkConn drv_snap drv_core if_themes false false;
+              mkConn drv_snap drv_core if_prompting false false]
+  | 2%nat => [mkConn drv_snap drv_core if_refresh_observe true false; mkConn drv_snap drv_core if_themes false true;
+              mkConn drv_other drv_core if_prompting false false; mkConn drv_other drv_core if_refresh_observe false false;
+              mkConn drv_snap drv_core if_network false false]
+  | 3%nat => [mkConn drv_snap drv_core if_refresh_observe false false; mkConn drv_snap drv_core if_refresh_observe true false]
+  | 4%nat => [mkConn drv_snap drv_core if_themes false false; mkConn drv_other drv_core if_refresh_observe false false]
+  | 5%nat => [mkConn drv_snap drv_core if_prompting false false; mkConn drv_snap drv_core if_refresh_control false false]
+  | _ => [mkConn drv_snap drv_core if_refresh_control false false; mkConn drv_snap drv_core if_network false false]
   end.
 Definition drv_pk (k : nat) : bytes -> polkit_answer :=
   match k with
